@@ -200,6 +200,15 @@ class FakeOS:
         s.ev(p.name, "setuid", uid)
         s.tick()
 
+    def setgroups(self, groups):
+        s, t, p = ctx()
+        _sysfail(s, p, "initgroups")
+        if p.euid != 0:
+            raise PermissionError(errno.EPERM, "Operation not permitted")
+        p.groups = sorted(set(int(g) for g in groups))
+        s.ev(p.name, "setgroups", list(p.groups))
+        s.tick()
+
     def initgroups(self, username, gid):
         s, t, p = ctx()
         _sysfail(s, p, "initgroups")
